@@ -74,9 +74,9 @@ def overlap_free(ops):
 
 
 class AcqFamily(Family):
-    def __init__(self, space, cfgname='G'):
-        self.space, self.cfgname = space, cfgname
-        self.name = 'acq/%s%d/%s' % (space.name, space.max_len, cfgname)
+    def __init__(self, space, cfgname='G', structure_path=False):
+        self.space, self.cfgname, self.structure_path = space, cfgname, structure_path
+        self.name = 'acq/%s%d/%s%s' % (space.name, space.max_len, cfgname, '/structures' if structure_path else '')
         self.rule = ('all programs of space %s up to length %d, modifiers applied; non-trivial = at least two measurements are listed' % (space.name, space.max_len))
 
     def shards(self, tier):
@@ -89,9 +89,20 @@ class AcqFamily(Family):
         return self.space.describe()
 
     def run(self, prog):
+        res = self._run(prog, False)
+        if self.structure_path and not res.fails and any(e[0] == 'sub' for e in prog):
+            # the same program with every block handed to add as a structure (ICircuitCompositeOperation) instead of a DeclarativeCircuit
+            r2 = self._run(prog, True)
+            if r2.outcome != res.outcome:
+                res.fail('C07-structure-path', 'program %r: indices differ when blocks are added as structures: %r vs %r' % (prog, r2.outcome, res.outcome))
+            for c, d in r2.fails:
+                res.fail(c, 'blocks added as structures: ' + d)
+        return res
+
+    def _run(self, prog, via_structure):
         res = Res()
         with world.override(world.cfg_by_name(self.cfgname)):
-            b = build(prog)
+            b = build(prog, via_structure=via_structure)
             un = b.circ.apply_modifiers()
             ops = un.operations
             meas = [o for o in ops if hasattr(o, 'acquisition_index')]
@@ -155,9 +166,11 @@ class AcqFamily(Family):
 
 def families(tier):
     if tier == 'quick':
-        return [AcqFamily(AcqSpace(2)), AcqFamily(AcqSpace(1, two_level=True, reps=(1, 2, 3)), 'D')]
+        return [AcqFamily(AcqSpace(2)), AcqFamily(AcqSpace(1, two_level=True, reps=(1, 2, 3)), 'D', structure_path=True),
+                AcqFamily(AcqSpace(2, tags=('',), reps=(2,), extra=(('X', 0),)), 'H', structure_path=True)]
     return [AcqFamily(AcqSpace(2, tags=('', 'a', 'b'), reps=(1, 2, ('reg', 3)))), AcqFamily(AcqSpace(2, tags=('', 'a'), two_level=True, extra=(('X', 0),), reps=(1, 2)), 'D'),
-            AcqFamily(AcqSpace(3, tags=('', 'a'), reps=(2,), extra=(), modes=('own',)), 'H')]
+            AcqFamily(AcqSpace(3, tags=('', 'a'), reps=(2,), extra=(), modes=('own',)), 'H'),
+            AcqFamily(AcqSpace(2, tags=('', 'a'), reps=(1, 2), extra=(('X', 0),)), 'H', structure_path=True)]
 
 
 def signature(f):
